@@ -55,6 +55,39 @@ ODD_STMTS = ["write(*,*) x, y", "if (n < 0) return", "call helper(a, n, x)",
              "call helper(b, n, t)", "call helper(c, n, y)",
              "print *, 'value', t", "x = real(size(a), wp)"]
 
+# "kinds" variant (C04): kind parameters also live in a module of their own,
+# the helper imports them while the caller has same-named local constants,
+# and the caller declares PARAMETER arrays and constants that depend on
+# other constants - so merges rename constants that declarations depend on.
+KINDS_MODULE = """module kinds_mod
+  implicit none
+  integer, parameter :: wp = kind(1.0d0)
+  integer, parameter :: ik = kind(1)
+end module kinds_mod
+"""
+KINDS_DECLS = """
+  integer, parameter :: ik = kind(1)
+  integer, parameter :: nloc = 4
+  real(kind=wp), dimension(nloc), parameter :: w4 = (/1.0, 2.0, 3.0, 4.0/)
+  integer(kind=ik), dimension(2), parameter :: perm = (/2, 1/)
+  real(kind=wp), parameter :: half = 0.5_wp
+  real(kind=wp), dimension(nloc) :: wloc
+"""
+KINDS_STMTS = ["x = w4(2) * x", "v1(:) = w4(:)", "k = perm(1)",
+               "wloc(:) = w4(:) * half", "t = half * y", "v2 = wloc",
+               "x = x + wloc(perm(2))"]
+HELPER_KINDS = """
+  subroutine helper(arr, n, x)
+    use kinds_mod, only: wp, ik
+    integer, intent(in) :: n
+    real(kind=wp), dimension(n), intent(inout) :: arr
+    real(kind=wp), intent(inout) :: x
+    real(kind=wp) :: t, y
+    integer(kind=ik) :: i, k
+{body}
+  end subroutine helper
+"""
+
 HELPER = """
   subroutine helper(arr, n, x)
     integer, intent(in) :: n
@@ -139,8 +172,20 @@ def gen_program(rng):
                                    line(pick(rng, ARRAY_STMTS))],
                           "else": [gen_loop(rng)]
                           if rng.random() < 0.4 else []})
-    return {"stmts": stmts, "helper": pick(rng, HELPER_BODIES),
+    prog = {"stmts": stmts, "helper": pick(rng, HELPER_BODIES),
             "decl_variant": rng.randrange(3)}
+    if rng.random() < 0.35:
+        prog["kinds"] = True
+        prog["kinded_constructor"] = rng.random() < 0.5
+        for _ in range(rng.randint(1, 3)):
+            stmts.insert(rng.randrange(len(stmts) + 1),
+                         line(pick(rng, KINDS_STMTS)))
+        if not any("call helper" in st.get("t", "") for st in stmts):
+            stmts.insert(rng.randrange(len(stmts) + 1),
+                         line(pick(rng, ["call helper(a, n, x)",
+                                         "call helper(v1, 4, t)",
+                                         "call helper(wloc, nloc, y)"])))
+    return prog
 
 
 def _emit(stmts, ind, out):
@@ -162,15 +207,25 @@ def _emit(stmts, ind, out):
 
 
 def program_text(prog):
-    out = ["module m_mod", "  implicit none", "contains",
-           "  subroutine sub(n, a, b, p, q)"]
+    kinds = bool(prog.get("kinds"))
+    out = KINDS_MODULE.strip("\n").split("\n") if kinds else []
+    out += ["module m_mod", "  implicit none", "contains",
+            "  subroutine sub(n, a, b, p, q)"]
     out += [ln for ln in DECLS.strip("\n").split("\n")]
+    if kinds:
+        # constants go straight after wp, before the executable part
+        decls = KINDS_DECLS
+        if prog.get("kinded_constructor"):
+            decls = decls.replace("(/1.0, 2.0, 3.0, 4.0/)",
+                                  "(/1.0_wp, 2.0_wp, 3.0_wp, 4.0_wp/)")
+        out += [ln for ln in decls.strip("\n").split("\n")]
     body = []
     _emit(prog["stmts"], 2, body)
     out += body
     out.append("  end subroutine sub")
     hb = "\n".join("    " + ln for ln in prog["helper"])
-    out += HELPER.format(body=hb).strip("\n").split("\n")
+    out += (HELPER_KINDS if kinds else HELPER).format(
+        body=hb).strip("\n").split("\n")
     out.append("end module m_mod")
     return "\n".join(out) + "\n"
 
